@@ -18,12 +18,13 @@ import nlgen, c09gen
 from nlgen import Rng
 
 SAN = ('-O1', '-g', '-fsanitize=address,undefined', '-fno-sanitize-recover=all', '-fno-sanitize=vptr')
-STAGES = ['ctor', 'init', 'openNL', 'header', 'options', 'body', 'names', 'convert', 'extras', 'solve', 'report', 'suffixes']
+STAGES = ['ctor', 'init', 'openNL', 'header', 'options', 'populate', 'body', 'names', 'convert', 'extras', 'solve', 'report', 'suffixes']
 NO_HANDLER = {'ctor', 'init', 'openNL', 'header'}
 SITES = ['ctor', 'init', 'options', 'convert', 'extras', 'solve', 'report', 'suffixes']
 KINDS = ['plain', 'withCode', 'infeas', 'solCheck', 'unsupported', 'optionError', 'readError', 'fmtError', 'systemError', 'stdExn', 'foreign']
 EXITFAIL = {'unsupported', 'readError', 'fmtError'}
-TIMEOUT = 120
+TIMEOUT = 40
+ASAN = 'detect_leaks=0:abort_on_error=0:allocator_may_return_null=1:max_allocation_size_mb=512:hard_rss_limit_mb=1500'
 
 
 # ------------------------------------------------------------------------------------------ strict .sol parser
@@ -107,7 +108,8 @@ def materialise(case, d, exe):
     elif op == 'devfull':
         os.symlink('/dev/full', stub + '.sol')
     env = {k: v for k, v in os.environ.items() if not k.endswith('_options') and not k.startswith('RECSOLVER_')}
-    env['ASAN_OPTIONS'] = 'detect_leaks=0:abort_on_error=0'
+    env['ASAN_OPTIONS'] = ASAN
+    env['UBSAN_OPTIONS'] = 'print_stacktrace=1'
     env['RECSOLVER_LOG'] = stub + '.reclog'
     env.update(case.get('env', {}))
     if case.get('script') is not None:
@@ -141,10 +143,50 @@ def run_case(case, d, exe):
     return r
 
 
+def top_frame(err):
+    """name of the innermost mp:: function in a sanitizer stack trace (template arguments removed)"""
+    for l in err.split('\n'):
+        m = re.match(r'\s*#\d+ 0x[0-9a-f]+ in (.*?)( /| \(/|$)', l)
+        if not m or 'mp::' not in m.group(1):
+            continue
+        t = m.group(1)
+        prev = None
+        while prev != t:
+            prev = t
+            t = re.sub(r'<[^<>]*>', '', t)
+        t = re.sub(r'\(.*$', '', t)
+        names = re.findall(r'([A-Za-z_]\w*)\s*$', t)
+        return names[0] if names else t[-40:]
+    return ''
+
+
 def strip_echo(out):
-    """stdout without the banner, backspaces and option echo lines ('  name = value')"""
+    """stdout without the banner, backspaces, option echo lines ('  name = value'), the warnings block
+    and the tables printed for wantsol&2 / wantsol&4: what remains is the solve message"""
     out = out.replace('\b', '')
-    lines = [l for l in out.split('\n') if not l.startswith('  ')]
+    lines = []
+    skip = None
+    for l in out.split('\n'):
+        if skip == 'warn':
+            if l.strip() == '':
+                skip = None
+                continue
+            if not (l.startswith('recsolver 0.0.1:') or 'injected ' in l or 'scripted ' in l):
+                continue
+            skip = None
+        if skip == 'table':
+            if l.strip() == '':
+                skip = None
+            continue
+        if l.startswith('------------ WARNINGS'):
+            skip = 'warn'
+            continue
+        if re.match(r'^(variable|constraint)\s+(value|dual value)\s*$', l):
+            skip = 'table'
+            continue
+        if l.startswith('  '):
+            continue
+        lines.append(l)
     txt = '\n'.join(lines)
     txt = re.sub(r'^recsolver 0\.0\.1: (?=\n|$)', '', txt)
     return txt.strip('\n ')
@@ -158,27 +200,38 @@ def observe(case, r):
     m = re.search(r'ERROR: (AddressSanitizer|LeakSanitizer|UndefinedBehaviorSanitizer)[: ]+([\w-]+)', err)
     m2 = re.search(r'runtime error: ([^\n]{0,80})', err)
     if m or m2:
-        fr = re.search(r'#\d+ 0x[0-9a-f]+ in ([\w:~<>]+)', err)
         what = (m.group(2) if m else 'ubsan:' + re.sub(r'0x[0-9a-f]+|\d+', 'N', m2.group(1))[:50])
-        return {'kind': 'crash', 'detail': 'sanitizer:%s' % what, 'frame': fr.group(1)[:60] if fr else ''}
+        return {'kind': 'crash', 'detail': 'sanitizer:%s' % what, 'frame': top_frame(err)}
+    if 'hard rss limit exhausted' in err:
+        return {'kind': 'crash', 'detail': 'rss-limit', 'frame': ''}
     if isinstance(rc, int) and rc < 0:
         return {'kind': 'crash', 'detail': 'signal%d%s' % (-rc, ':terminate' if 'terminate called' in err else ''), 'frame': ''}
-    solfile = r['sol'] is not None or r['sol_special'] == 'devfull'
+    if rc == 0 and err.startswith('Error: '):
+        return {'kind': 'stderr', 'exit': 0}
     if rc == 0:
         if r['sol'] is not None:
             ps = parse_sol_strict(r['sol'])
             echoed = 0
             if ps:
-                first = next((l for l in ps['message'].split('\n') if l.strip()), '')
-                echoed = 1 if (first and first.replace('recsolver 0.0.1: ', '').strip() in r['out']) and not case.get('ampl') else 0
+                ml = [l for l in ps['message'].split('\n') if l.strip()]
+                own = [l for l in ml if l.startswith('recsolver 0.0.1:')] or ml[:1]
+                key = own[0].replace('recsolver 0.0.1:', '').strip() if own else ''
+                echoed = 1 if (key and key in r['out'].replace('\b', '')) and not case.get('ampl') else 0
             if ps is None:
                 return {'kind': 'sol', 'complete': 0, 'raw': r['sol'][:300]}
             return {'kind': 'sol', 'complete': 1, 'echoed': echoed, **ps}
-        if r['sol_special'] == 'devfull':
+        if r['sol_special'] == 'devfull' and 'cannot close file' in err:
+            # fmt::BufferedFile's destructor reports the failed fclose on stderr: the writer ran, the data are lost
             return {'kind': 'sol', 'complete': 0, 'raw': '(symlink to /dev/full)', 'err': err[:100]}
         if case.get('info'):
             return {'kind': 'info'}
-        shown = 1 if strip_echo(r['out']) else 0
+        rest = strip_echo(r['out'])
+        if any(l.startswith('recsolver 0.0.1:') or 'injected ' in l or 'scripted ' in l for l in rest.split('\n')):
+            shown = 1
+        elif not rest:
+            shown = 0 if 'WARNINGS' not in r['out'] else '?'   # an unprefixed message right after a warnings block cannot be told apart
+        else:
+            shown = 1
         return {'kind': 'stdout', 'shown': shown}
     # rc > 0
     if r['sol'] is not None:
@@ -198,7 +251,7 @@ def canon(o):
         return 'sol code=%d ncons=%d nduals=%d nvars=%d nprimals=%d complete=1 echoed=%d exit=0' % (
             o['code'], o['ncons'], o['nduals'], o['nvars'], o['nprimals'], o['echoed'])
     if k == 'stdout':
-        return 'stdout shown=%d exit=0' % o['shown']
+        return 'stdout shown=%s exit=0' % o['shown']
     if k == 'stderr':
         return 'stderr exit=%d' % o['exit']
     if k == 'crash':
@@ -252,11 +305,14 @@ def classify_message(case, r, o):
     if 'scripted UnsupportedError' in msg:
         return ('solve', 'unsupported', None)
     code = o.get('code') if o['kind'] == 'sol' and o.get('complete') else None
-    stage = 'report' if solved else ('convert' if True else 'body')
+    stage = 'report' if solved else 'convert'
+    if code is not None and hdr and not began and (o['ncons'], o['nvars']) != (hdr[0], hdr[1]):
+        # the problem was not (completely) populated from the header: NLProblemBuilder::OnHeader threw
+        stage = 'populate'
     if 'unsupported: ' in msg or re.search(r'[Uu]nsupported', msg) and code == 1:
         return (stage, 'unsupported', None)
     if 'Model infeasible' in msg:
-        return (stage, 'infeas', None)
+        return (stage, 'infeas' if code == 200 or code is None else 'wrappedInfeas', None)
     if code is not None:
         if solved and code == case['answer'][0] and not re.search(r'Error|error|failed', msg.split('WARNINGS')[0]):
             return None                      # the solver's answer was reported
@@ -283,7 +339,7 @@ def cause_of(fault):
     if fault is None:
         return 'none'
     st, rz, c = fault
-    if rz == 'infeas':
+    if rz in ('infeas', 'wrappedInfeas'):
         return 'infeasible'
     if rz == 'withCode' and c is not None and c >= 0:
         return 'raised:%d' % c
@@ -299,6 +355,14 @@ def oracle(case, sc, o):
     ending = sc['ending']
     if o['kind'] in ('hang', 'crash', 'anomaly'):
         d = o.get('detail', o['kind'])
+        if o.get('frame') == 'VisitDisequality':
+            dev.append(('crash:VisitDisequality-constant-eq', 'crash (%s) in ProblemFlattener::VisitDisequality: a disequality whose sides differ by a constant '
+                        '(x != x, y != c with c outside y\'s domain) folds to a constant and eq.get_representing_variable() indexes an empty vector' % d))
+            return dev
+        if (o['kind'] == 'hang' or d in ('rss-limit', 'signal9') or d.startswith('sanitizer:allocat') or d.startswith('sanitizer:out-of-memory')) \
+                and sc.get('hdr_inconsistent'):
+            dev.append(('resource:inconsistent-header-counts', 'NL header with inconsistent counts makes the driver allocate without bound (%s)' % d))
+            return dev
         dev.append(('%s:%s:%s' % (o['kind'], d, o.get('frame', '')), 'run ended with %s (%s)' % (o['kind'], d)))
         return dev
     if ending == 'info':
@@ -316,7 +380,8 @@ def oracle(case, sc, o):
             return dev
         hd = sc['dims']
         if hd is not None and (o['ncons'], o['nvars']) != tuple(hd):
-            where = 'optdims' if (ending and ending[0] == 'options') else 'dims'
+            where = {'options': 'optdims', 'populate': 'hdrdims'}.get(ending[0] if ending else '', 'dims')
+
             dev.append(('%s:%s' % (where, rz), '.sol count lines say %d constraints / %d variables, NL header says %d / %d'
                         % (o['ncons'], o['nvars'], hd[0], hd[1])))
         if o['nduals'] not in (0, o['ncons']) or o['nprimals'] not in (0, o['nvars']):
@@ -329,7 +394,9 @@ def oracle(case, sc, o):
         else:
             good = ok[cause]()
         if not good:
-            if c == 1 and rz in EXITFAIL:
+            if c == 500 and rz == 'wrappedInfeas':
+                dev.append(('infeas500:%s' % ending[0], 'model proven infeasible during conversion ("Model infeasible: …") but the .sol carries solve code 500, not 200-299'))
+            elif c == 1 and rz in EXITFAIL:
                 dev.append(('code1:%s:%s' % (rz, ending[0]), 'failure (%s at %s) reported with solve code 1 (class "solved") in the .sol' % (rz, ending[0])))
             else:
                 dev.append(('codeclass:%s:%d' % (cause, c), 'cause %s but .sol carries solve code %d' % (cause, c)))
@@ -352,7 +419,7 @@ def tok_str(t):
     return t if isinstance(t, str) else 'w%d' % t[1]
 
 
-def scenario_line(case, ending_fault, dims, ans):
+def scenario_line(case, ending_fault, dims, ans, partial=(0, 0)):
     flags = ''.join(case.get('flags_tok', [])) or '-'
     opts = ','.join(tok_str(t) for _, t in case.get('all_opts', [])) or '-'
     op = case.get('outpath', 'ok')
@@ -363,9 +430,9 @@ def scenario_line(case, ending_fault, dims, ans):
     else:
         st, rz, c = ending_fault
         f = '%s:%s' % (st, rz) + (':%d' % c if rz == 'withCode' else '')
-    return 'run %s %d %d %s %d %d %d %d %d %s %d %d %d' % (
+    return 'run %s %d %d %s %d %d %d %d %d %d %d %s %d %d %d' % (
         flags, 1 if case.get('stub', True) else 0, 1 if case.get('ampl') else 0, opts, 1 if case.get('objno_big') else 0,
-        dims[0], dims[1], can_open, can_flush, f, ans[0], 1 if ans[1] else 0, 1 if ans[2] else 0)
+        dims[0], dims[1], partial[0], partial[1], can_open, can_flush, f, ans[0], 1 if ans[1] else 0, 1 if ans[2] else 0)
 
 
 def py_model_ending(case, fault):
@@ -491,14 +558,20 @@ class CaseGen:
             envopts, opts = opts[:k], opts[k:]
             var = r.choice(['mp_options', 'recsolver_options'])
             c['env'][var] = ' '.join(t for t, _ in envopts)
-        if not c.get('ampl') and r.chance(1, 12) and c.get('stub', True):
+        if not c.get('ampl') and r.chance(1, 12) and c.get('stub', True) and opts:
             # -AMPL not directly after the stub: it is then an (unknown) option
             opts.append(('-AMPL', 'b'))
+        if not c.get('stub', True):
+            opts, envopts = [], envopts     # without a stub the first assignment would be taken as the stub
         c['options'] = opts
         c['all_opts'] = envopts + opts
-        # options that change what the natural ending is are avoided by construction (OPT_OK is neutral), except:
-        if any(t.startswith('obj:no=') or t.startswith('objno=') for t, _ in c['all_opts']) and not c.get('objno_big'):
-            pass
+        # objno beyond the number of objectives (the last assignment wins): raised after all options are parsed
+        last = None
+        for t, k in c['all_opts']:
+            m = re.fullmatch(r'(obj:no|objno)=(\d+)', t)
+            if m and k == 'o':
+                last = int(m.group(2))
+        c['objno_big'] = bool(last is not None and last > c.get('nobjs', 0))
 
     def add_outpath(self, c):
         r = self.r
@@ -520,7 +593,8 @@ class CaseGen:
             c['col'] = '\n'.join((c['col'] or 'a\n').split('\n')[:1]) + '\n'
         elif k == 9:     # malformed: no final newline -> ReadError at names (if names are read)
             which = r.choice(['col', 'row'])
-            if c[which]:
+            # (standalone mode with wantsol&2/4 re-reads the names files inside HandleSolution: not modelled)
+            if c[which] and c.get('ampl'):
                 c[which] = c[which].rstrip('\n') + 'z'
                 c['names_bad'] = which
         elif k == 10:    # empty first line / CRLF / long names
@@ -722,6 +796,18 @@ def corpus_cases(cg):
     m = lp(); m.lcon(('lt', ('n', 1), ('n', 0)))
     c = cg.base('corpus:infeasible', m); c['natural'] = ('convert', 'infeas', None); c['all_opts'] = []; out.append(c)
     c = cg.base('corpus:bigm', g.model_bigm()); c['natural'] = None; c['all_opts'] = []; out.append(c)
+    # binary fixed to 1 and `not (b = 1)`: MP_INFEAS inside PropagateResult, re-raised by ConstraintKeeper with MP_RAISE
+    m = lp(); b = m.var(1, 1, True); m.lcon(('not', ('eq', ('v', b), ('n', 1))))
+    c = cg.base('corpus:counterexample_infeas500', m); c['natural'] = ('convert', 'wrappedInfeas', None); c['all_opts'] = []; out.append(c)
+    # inconsistent header: one more nonlinear variable declared than there are variables
+    c = mk('counterexample_hdrdims')
+    L = c['nl'].split('\n'); L[4] = ' 3 3 3'; c['nl'] = '\n'.join(L); c['natural'] = None
+    # a disequality whose two sides cancel: x != x
+    m = lp(); m.lcon(('ne', ('v', 0), ('v', 0)))
+    c = cg.base('corpus:ne_same', m); c['natural'] = None; c['all_opts'] = []; out.append(c)
+    # header claiming 2^31-1 nonlinear variables (bounded here by the allocator limits of the sanitizer run time)
+    c = mk('hdr_huge_count')
+    L = c['nl'].split('\n'); L[4] = ' 2 2 2147483647'; c['nl'] = '\n'.join(L); c['natural'] = None
     for op in ('isdir', 'dangling'):
         mk('outpath_' + op, outpath=op)
         mk('outpath_%s_err' % op, outpath=op, options=[('foo=1', 'b')])
@@ -832,7 +918,8 @@ def run(ck):
         hd = c.get('header')
         dims = (hd[0], hd[1]) if hd else (0, 0)
         ans = c.get('answer', (0, True, True))
-        lines.append(scenario_line(c, fault, dims, ans))
+        partial = (o['ncons'], o['nvars']) if (fault and fault[0] == 'populate' and o['kind'] == 'sol' and o.get('complete')) else (0, 0)
+        lines.append(scenario_line(c, fault, dims, ans, partial))
         evals.append((o, fault, inferred))
     p = subprocess.run([drv], input='\n'.join(lines) + '\n', capture_output=True, text=True)
     model = p.stdout.split('\n')
@@ -850,6 +937,8 @@ def run(ck):
         ml = model[idx] if idx < len(model) else ''
         obs_s = canon(o)
         mod_s = canon_model(ml)
+        if 'shown=?' in obs_s:
+            mod_s = re.sub(r'shown=\d', 'shown=?', mod_s)
         ending = py_model_ending(c, fault)
         fam = c['family'].split(':')[0] if not c['family'].startswith('corpus') else 'corpus'
         bump('family', fam)
@@ -869,7 +958,7 @@ def run(ck):
         corr_bad = (ml == 'bad-op' or obs_s != mod_s)
         # (b) the property itself on what the implementation did
         sc = {'ending': ending, 'dims': (hd[0], hd[1]) if hd else None, 'outpath': c.get('outpath', 'ok'),
-              'answer': c.get('answer', (0, True, True))}
+              'answer': c.get('answer', (0, True, True)), 'hdr_inconsistent': c09gen.header_inconsistent(c['nl']) if c.get('nl') else False}
         devs = oracle(c, sc, o)
         latent = c.get('synthetic') and c.get('inject') and (
             (c['inject'][1] == 'foreign') or (c['inject'][0] == 'ctor'))
@@ -881,7 +970,9 @@ def run(ck):
             ck.add_violation(sig, '%s  [family %s, argv tail %s]' % (text, c['family'], ' '.join(
                 c.get('flags_argv', []) + (['<stub>'] if c.get('stub', True) else []) + (['-AMPL'] if c.get('ampl') else []) + [t for t, _ in c.get('options', [])])),
                 replay, found_input=True)
-        if corr_bad:
+        if corr_bad and any(sig.split(':')[0] in ('crash', 'hang', 'resource', 'anomaly') for sig, _ in devs):
+            n_crash_unpredicted = True       # crashes of the real code are not rows of the decision table; reported above
+        elif corr_bad:
             n_dis += 1
             if not devs:
                 # the real code satisfies the property here but the model predicts something else: model drift
